@@ -99,6 +99,7 @@ fn main() {
                 "topo" => scen_topo::run(seed, tier, &mut out),
                 "parse" => scen_parse::run(seed, tier, &mut out),
                 "parsebound" => scen_parse::run_parsebound(seed, tier, &mut out),
+                "parsecustom" => scen_parse::run_parsecustom(seed, tier, &mut out),
                 "roundtrip" => scen_parse::run_rt(seed, tier, &mut out),
                 "fsweep" => scen_parse::run_fsweep(tier, &mut out),
                 "loops" => scen_loops::run(seed, tier, &mut out),
@@ -151,6 +152,7 @@ fn main() {
                             "stackop" => scen_stack::replay(&xs[1..]),
                             "topo" => scen_topo::replay(&xs[1..]),
                             "parse" => scen_parse::replay_parse(&xs[1..]),
+                            "parsec" => scen_parse::replay_parsec(&xs[1..]),
                             "roundtrip" => scen_parse::replay_rt(&xs[1..]),
                             "bufseq" => scen_buf::replay(&xs[1..]),
                             "exec" => scen_exec::replay_exec(&xs[1..]),
